@@ -162,7 +162,11 @@ def simulate(ck, case):
   from pymtl3.passes.tracing.PrintTextWavePass import PrintTextWavePass
 
   drng = random.Random(case['dseed'])
-  src, spec = G.generate(drng, case['dseed'], case['depth'], case.get('big', False), case.get('nonpure'))
+  ol = case.get('openloop')
+  if ol:
+    src, spec, feeds = G.generate_openloop(drng, case['dseed'], case['depth'], case.get('methods', 2) == 2)
+  else:
+    src, spec = G.generate(drng, case['dseed'], case['depth'], case.get('big', False), case.get('nonpure'))
   mod, modname = load_module(ck, src, case['dseed'])
   r = Run(); r.src = src; r.spec = spec
   try:
@@ -178,16 +182,12 @@ def simulate(ck, case):
     def read_all():
       return [pack(resolve(comp_of(path), e), td) for path, e, td in sigs]
     hook_samples = []
-    top.set_metadata(VerilogTBGenPass.vtbgen_hooks, [lambda: hook_samples.append(read_all())])
     vcd_base = os.path.join(ck.workdir, f'wave_{os.getpid()}_{case["dseed"]}')
-    top.apply(DefaultPassGroup(vcdwave=vcd_base, textwave=True))
-    r.top = top
-    r.after_apply = read_all()
     api_samples = {}      # cycle index -> sample taken through the public API
-    inports = [(e, td) for e, td in spec.inports]
+    inports = feeds if ol else [(e, td) for e, td in spec.inports]
     cur = {e: 0 for e, _ in inports}
     pools = {e: [0, (1 << G.nbits(td)) - 1, drng.getrandbits(G.nbits(td))] for e, td in inports}
-    def set_inputs():
+    def next_values():
       for e, td in inports:
         q = drng.random()
         if q < 0.35: v = cur[e]
@@ -196,31 +196,66 @@ def simulate(ck, case):
         else:
           v = drng.getrandbits(G.nbits(td)); pools[e].append(v)
         cur[e] = v
-        sig = resolve(top, e)
-        sig @= unpack(mod, td, v)
-    # method port / update_once: sim_tick does not re-run the update blocks before the edge, and
-    # sim_eval_combinational() is not available (it raises; on the present tree a NameError from its own message)
-    r.pure = not case.get('nonpure')
-    def tick():
-      set_inputs()
-      if r.pure:
-        top.sim_eval_combinational()
-        if case.get('poke') and drng.random() < 0.3:
-          set_inputs()            # poke again after the evaluation, no re-evaluation by the test bench: hook sample only
-        else:
-          api_samples[len(hook_samples)] = read_all()
-      top.sim_tick()
-    mode = case['reset']
-    if mode == 'sim_reset':
-      top.sim_reset()
-    elif mode == 'manual':
-      from pymtl3.datatypes import b1
-      top.reset @= b1(1)
-      for _ in range(2): tick()
-      top.reset @= b1(0)
-    for i in range(case['ncycles']):
-      if case.get('midreset') == i: top.sim_reset()
-      tick()
+      return [unpack(mod, td, cur[e]) for e, td in inports]
+    r.pure = not case.get('nonpure') and not ol
+    if ol:
+      # open-loop flow: AutoTickSimPass / GenDAGPass + OpenLoopCLPass build their own per-cycle function list
+      # [update blocks, ff blocks, dump_vcd, dump_wav, flip]; the samples are taken by the design's spy update_ff block
+      from pymtl3.passes.PassGroups import AutoTickSimPass
+      from pymtl3.passes.autotick.OpenLoopCLPass import OpenLoopCLPass
+      from pymtl3.passes.sim.GenDAGPass import GenDAGPass
+      from pymtl3.passes.sim.WrapGreenletPass import WrapGreenletPass
+      from pymtl3.passes.tracing.VcdGenerationPass import VcdGenerationPass
+      mod.C16_SPY[0] = lambda: hook_samples.append(read_all())
+      top.set_metadata(VcdGenerationPass.vcd_file_name, vcd_base)
+      top.set_metadata(PrintTextWavePass.enable, True)
+      # (AutoTickSimPass itself = these three passes + a second top.lock_in_simulation(), which raises KeyError on
+      #  the present tree as soon as a value net has a signal residence; so the passes are applied one by one)
+      if ol == 'autotick':
+        top.apply(AutoTickSimPass(print_line_trace=False))
+      else:
+        top.apply(GenDAGPass()); top.apply(WrapGreenletPass()); top.apply(OpenLoopCLPass(print_line_trace=False))
+      r.top = top
+      r.after_apply = read_all()
+      if case['reset'] == 'sim_reset': top.sim_reset()
+      vals = None
+      for i in range(case['ncycles']):
+        if case.get('midreset') == i: top.sim_reset()
+        vals = next_values()
+        top.push(vals)
+        if case.get('methods', 2) == 2: top.peek()
+      if vals is not None: top.push(vals)      # the next call closes the last cycle
+    else:
+      top.set_metadata(VerilogTBGenPass.vtbgen_hooks, [lambda: hook_samples.append(read_all())])
+      top.apply(DefaultPassGroup(vcdwave=vcd_base, textwave=True))
+      r.top = top
+      r.after_apply = read_all()
+      def set_inputs():
+        for (e, td), v in zip(inports, next_values()):
+          sig = resolve(top, e)
+          sig @= v
+      # method port / update_once: sim_tick does not re-run the update blocks before the edge, and
+      # sim_eval_combinational() is not available (it raises; on the present tree a NameError from its own message)
+      def tick():
+        set_inputs()
+        if r.pure:
+          top.sim_eval_combinational()
+          if case.get('poke') and drng.random() < 0.3:
+            set_inputs()            # poke again after the evaluation, no re-evaluation by the test bench: hook sample only
+          else:
+            api_samples[len(hook_samples)] = read_all()
+        top.sim_tick()
+      mode = case['reset']
+      if mode == 'sim_reset':
+        top.sim_reset()
+      elif mode == 'manual':
+        from pymtl3.datatypes import b1
+        top.reset @= b1(1)
+        for _ in range(2): tick()
+        top.reset @= b1(0)
+      for i in range(case['ncycles']):
+        if case.get('midreset') == i: top.sim_reset()
+        tick()
     r.samples = hook_samples
     r.api_samples = api_samples
     r.textwave = {k: list(v) for k, v in top.get_metadata(PrintTextWavePass.textwave_dict).items()}
@@ -343,6 +378,14 @@ def check_design(ck, case, r, lines_out):
     t, i, tok, want = bad
     viol('replay-mismatch', {'cycle': t, 'signal': list(sigs[i][:2]), 'file_says': tok, 'simulator_held': want,
                              'symbol': sig_decl[i][1], 'oracle': 'python hold-until-changed replay of the parsed file'})
+  # ---- open-loop designs: a snapshot taken at one instant shows nxt == count + 1
+  if case.get('openloop') and (('top',), 'count') in dmap:
+    (cw, csym), (_, nsym) = dmap[(('top',), 'count')], dmap[(('top',), 'nxt')]
+    for t in range(N):
+      a, b = rep[t].get(csym), rep[t].get(nsym)
+      if a is None or b is None or VP.value_of(b) != (VP.value_of(a) + 1) % (1 << cw):
+        viol('inconsistent-snapshot', {'cycle': t, 'count': a, 'nxt': b, 'oracle': 'nxt is combinationally count+1'})
+        break
   # ---- the clock
   clk_lines = [(t, v) for t, s, v in events if s == clk_sym and t is not None]
   want_clk = [(0, '1')] + [x for c in range(N) for x in ((100 * c + 50, '0'), (100 * c + 100, '1'))]
@@ -483,7 +526,10 @@ def gen_case(rng, idx, tier):
           'reset': rng.choices(['sim_reset', 'manual', 'none'], [5, 2, 3])[0]}
   if big: case['big'] = True
   q = rng.random()
-  if q < 0.3: case['nonpure'] = rng.choice(['method', 'update_once'])
+  if idx % 7 == 3:
+    case['openloop'] = 'passes'; case['methods'] = rng.choice([1, 2, 2])
+    case['reset'] = rng.choice(['sim_reset', 'sim_reset', 'none']); case.pop('big', None)
+  elif q < 0.3: case['nonpure'] = rng.choice(['method', 'update_once'])
   elif q < 0.45: case['poke'] = True
   if ncyc > 4 and rng.random() < 0.1: case['midreset'] = rng.randint(1, ncyc - 1)
   return case
@@ -509,7 +555,7 @@ def run_case(ck, case, pending):
   st = ctx['stats'] if ctx else (0, 0, 0, 0)
   ck.count(case, st[0] > 0 and st[1] > 0)
   ck.hist('depth', case['depth']); ck.hist('reset', case['reset'])
-  ck.hist('tick', 'not pure RTL (dump before any update block)' if not r.pure else 'pure RTL, inputs poked again after eval' if case.get('poke') else 'pure RTL')
+  ck.hist('tick', 'open loop (method driven, ' + case['openloop'] + ')' if case.get('openloop') else 'not pure RTL (dump before any update block)' if not r.pure else 'pure RTL, inputs poked again after eval' if case.get('poke') else 'pure RTL')
   ck.hist('cycles', '0' if N == 0 else '1-9' if N < 10 else '10-29' if N < 30 else '30+')
   ck.hist('signals', min(300, (len(r.sigs) // 20) * 20))
   if ctx:
